@@ -59,6 +59,25 @@ def oracle(chk, world, r, case):
                 chk.failure("rule %d returned a non-response but has a value %s" % (cid, got), case)
         elif got != want:
             chk.failure("component %d: requirements met, body gives %s, broker holds %s" % (cid, want, got), case)
+    # (1b) a multi-output parser that goes on after a faulty element (continue_on_error, the default): the elements that
+    #      can be built are its value whatever kind of fault the others met; only when none can be built is it absent
+    for cid in sorted(keys):
+        s = spec[cid]
+        if s["kind"] != "parser1" or cid in seeded or not s.get("enabled", True) or any(i in inst for i in s.get("ignore", [])):
+            continue
+        req, groups, deps = declared(s)
+        if not req or any(x not in inst for x in req) or any(not any(x in inst for x in g) for g in groups):
+            continue
+        src = b.instances.get(world.comps[req[0]])
+        if not isinstance(src, list):
+            continue
+        sps = s.get("elems") or []
+        good = [(x * 7 + cid) % 1000 for x in src if (sps[x % len(sps)] if sps else "v") == "v"]
+        want = ("M" + ";".join(str(v) for v in good)) if good else "ABSENT"
+        got = W.canon_val(world, inst[cid]) if cid in inst else "ABSENT"
+        if got != want:
+            chk.failure("multi-output parser %d (goes on after faulty elements): the elements that can be built give %s, broker holds %s "
+                        "(element outcomes %s)" % (cid, want, got, [(sps[x % len(sps)] if sps else "v") for x in src]), case)
     # (2) accounting
     raised = dict((id(e), (cid, name)) for cid, name, e in r.raised)
     recorded = {}
@@ -94,6 +113,13 @@ def oracle(chk, world, r, case):
             lonely = kind == "datasource" and not world.regpoints(cid) and name in ("content", "calledProc", "timeout")
             chk.failure("%s raised by %s %d is recorded nowhere" % (name, kind, cid), case,
                         finding=KNOWN_LONELY if lonely else None)
+        elif kind == "datasource" and (name in ("content", "calledProc", "timeout") or name.startswith("crash")):
+            # a datasource's fault is recorded against EVERY registry point it implements or is built on, as they are now
+            # (registrations made after an earlier evaluation included)
+            lost = sorted(set(world.regpoints(cid)) - set(recorded[id(e)]))
+            if lost:
+                chk.failure("%s raised by datasource %d is recorded against %s but not against the registry point(s) %s it implements"
+                            % (name, cid, sorted(x for x in recorded[id(e)] if x is not None), lost), case)
 
 
 def witness_lonely():
@@ -232,6 +258,25 @@ def run(chk):
         lines.append(r.run_line)
         impl.append(r.text)
         cases.append(case)
+        if idx >= len(corpus) and idx % 3 == 1:
+            # history: a datasource that already took part (and maybe failed) becomes one more implementation of a registry
+            # point; in the next evaluation its fault must be recorded against that registry point too
+            keys_now = set(world.ids[k] for k in graph)
+            cands = world.late_candidates(keys_now)
+            faulty = [c for c in cands if spec[c[1]]["body"].split(":")[0] in ("f", "i")]
+            if cands:
+                pnt, dsid = rng.choice(faulty or cands)
+                world.late_register(pnt, dsid)
+                graph2 = world.graph_for(targets)
+                lines.extend(world.lines(seeds))
+                r2 = W.evaluate(world, seeds, ss, graph2, mode="run")
+                case2 = {"spec": W.strip(spec), "seeds": seeds, "targets": targets, "order": r2.order_ids, "store_skips": ss,
+                         "observer": None, "late": [pnt, dsid]}
+                oracle(chk, world, r2, case2)
+                lines.append(r2.run_line)
+                impl.append(r2.text)
+                cases.append(case2)
+                chk.count("late-registration")
         if r.error is None:
             p = W.split_text(r.text)
             chk.case(r.text, nontrivial=bool(p["exc"]) and bool(p["inst"]))
